@@ -41,6 +41,7 @@ def run_oracle(ctx, pid, lines, also=()):
     out = fw.run_lines(fw.HARNESS_BIN, lines, timeout=1400)
     stats = {}
     others = {}
+    cut = []
     for ln in lines:
         t = ln.split(' ', 5)
         o = out.get(t[1])
@@ -63,6 +64,29 @@ def run_oracle(ctx, pid, lines, also=()):
         else:
             others[fpids[0]] = others.get(fpids[0], 0) + 1
             ctx.nontrivial.add(ln)
+            cut.append(ln)
+    # a history cut short by another property's oracle is run again in focus mode: failures of other properties are noted and the
+    # history goes on, so that a later symptom of THIS property (e.g. two files owning one block after a wrong free count) is reached
+    if cut and not getattr(ctx, 'in_focus', False):
+        redo = []
+        for ln in cut:
+            t = ln.split(' ', 5)
+            redo.append(' '.join([t[0], t[1] + 'f', t[2], t[3], t[4].replace('-', '') + '@' + pid, t[5]]))
+        out2 = fw.run_lines(fw.HARNESS_BIN, redo, timeout=1400)
+        for ln in redo:
+            t = ln.split(' ', 5)
+            o = out2.get(t[1])
+            ctx.evaluations += 1
+            if o is None:
+                continue
+            head = o.split(' ;; ')[0]
+            if head.startswith('ok'):
+                continue
+            fpids, fam = failure_class(head, t[2])
+            mine = [q for q in fpids if q == pid or q in also]
+            if mine:
+                ctx.failures.append({'cls': f"{mine[0]}:{fam}", 'case': ln[:3000], 'detail': head[:700]})
+        ctx.distribution['histories_rerun_in_focus_mode'] = len(redo)
     ctx.distribution['operation_mix(op-result=count)'] = stats
     if others:
         ctx.notes.append(f"histories cut short by an oracle of another property (reported by that property's check): {others}")
@@ -251,7 +275,7 @@ def standard_run(ctx, pid, opts='r', lock_heavy=False, also=(), model_ok=True, n
         corr += [c for c in slotfill_cases(ctx, '-', 'mf') if c.split()[2] != 'cpm3']
         corr += [c for c in collide_cases(ctx, '-', 'mc') if c.split()[2] != 'cpm3']
         corr += subdir_cases(ctx, '-', 'ms')
-        corr += [' '.join(c.split(' ')[:4] + ['-'] + c.split(' ')[5:]).replace(' k', ' m', 1) for c in corpus_cases(pid) if c.split()[2] != 'cpm3']
+        corr += [' '.join(c.split(' ')[:4] + ['-'] + c.split(' ')[5:]).replace(' k', ' mk', 1) for c in corpus_cases(pid) if c.split()[2] != 'cpm3']
         run_correspondence(ctx, corr)
     oracle = corpus_cases(pid) + collide_cases(ctx, opts, 'oc') + bigfile_cases(ctx, opts, 'ob') + subdir_cases(ctx, opts, 'os') + (lockbig_cases(ctx, opts, 'ol') if lock_heavy else []) + dirfill_cases(ctx, opts, 'od') + slotfill_cases(ctx, opts, 'of') + exactfit_cases(ctx, opts, 'oe') + gen_cases(ctx, ALL_FS, n_o, opts, False, lock_heavy=lock_heavy, tag='o')
     out = run_oracle(ctx, pid, oracle, also=also)
